@@ -488,7 +488,7 @@ PROPS = {
                  "subset of G at some point; distinct by case hash"),
         "assumptions": [],
         "units": [
-            {"pkg": S, "test": "TestVerifC17", "quick": (16, 120), "thorough": (16, 10000), "timeout_q": 1500},
+            {"pkg": S, "test": "TestVerifC17", "quick": (16, 400), "thorough": (16, 10000), "timeout_q": 1500},
         ],
     },
 }
